@@ -44,7 +44,35 @@ func childLoop[T any](o opts, run func(*T) any) error {
 	return nil
 }
 
+// raceLine summarises a race-detector report: the first frame of each of the two accesses.
+func raceLine(msg string) string {
+	var fr []string
+	lines := strings.Split(msg, "\n")
+	for i, l := range lines {
+		t := strings.TrimSpace(l)
+		if (strings.HasPrefix(t, "Read at") || strings.HasPrefix(t, "Write at") || strings.HasPrefix(t, "Previous read at") ||
+			strings.HasPrefix(t, "Previous write at") || strings.HasPrefix(t, "Previous atomic") || strings.HasPrefix(t, "Atomic")) && i+1 < len(lines) {
+			f := strings.TrimSpace(lines[i+1])
+			if k := strings.IndexByte(f, '('); k > 0 {
+				f = f[:k]
+			}
+			fr = append(fr, f)
+		}
+	}
+	out := "race: " + strings.Join(fr, " vs ")
+	b := []byte(out)
+	for i := range b {
+		if b[i] < 0x20 || b[i] > 0x7e || b[i] == '"' || b[i] == '\\' {
+			b[i] = '?'
+		}
+	}
+	return string(b)
+}
+
 func panicLine(msg string, err error) string {
+	if strings.Contains(msg, "WARNING: DATA RACE") {
+		return raceLine(msg)
+	}
 	first := msg
 	if i := strings.Index(msg, "panic:"); i >= 0 {
 		first = msg[i:]
